@@ -172,3 +172,31 @@ func ZZH12TruncateIncomplete() {
 	firstErrorNotBefore(s, cut-1, "incomplete")
 	sym.Cover("end")
 }
+
+// ZZH12DeleteAny: deleting any single token of a valid program, whenever the
+// result is not valid JavaScript any more (decided by the permissive
+// reference recogniser R3: what it rejects, every ECMAScript parser rejects),
+// makes strict mode report an error, the first one not before the last intact
+// token.
+func ZZH12DeleteAny() {
+	g := NewGen(sym.Param("budget", 2))
+	g.ConcretePos = true
+	g.ConcreteOps = true
+	g.Smart = sym.Param("smart", 0) == 1
+	s := g.Program(sym.Param("stmts", 2))
+	sym.Assert(RAccepts(s.Toks), "reference-recogniser-accepts-the-valid-program")
+	n := len(s.Toks)
+	d := sym.Choose("delete", n)
+	var toks []token.Token
+	toks = append(toks, s.Toks[:d]...)
+	toks = append(toks, s.Toks[d+1:]...)
+	if d < len(s.Toks)-1 && s.Toks[d].AfterNewline {
+		// the line break in front of the deleted token stays in the text
+		toks[d].AfterNewline = true
+	}
+	sym.Assume(!RAccepts(toks))
+	s.Toks = toks
+	sym.Observe("script", s.Types(), s.Newlines(), d)
+	firstErrorNotBefore(s, d-1, "token-deleted")
+	sym.Cover("end")
+}
